@@ -43,6 +43,7 @@ TheSA == CHOOSE s \in PermTable[n] : IsSA(T, s)
 IndexDefsAgree ==
     /\ \A i, j \in Positions(T) :
           /\ SufLcp(T, i, j) = CommonPrefixLen(Suffix(T, i), Suffix(T, j))
+          /\ \A w \in 1..3 : SufLcpW(T, i, j, w) = CommonPrefixLen(Suffix(T, i), Suffix(T, j))
           /\ i # j => (SufLess(T, i, j) <=> LexLess(Suffix(T, i), Suffix(T, j)))
     /\ \A i \in Positions(T) : \A P \in Patterns :
           /\ OccursAt(T, i, P) <=> IsPrefix(P, Suffix(T, i))
@@ -119,9 +120,11 @@ ContractSharp ==
 (* ---- states with an accepted array: it is the suffix array, and the read actions are enabled for it *)
 AcceptedIsTheSA == have => (sa = TheSA /\ IsSA(T, sa))
 ReadActionsEnabled ==
-    have => /\ ENABLED RanksOk([k \in 1..(n + 1) |-> IF k <= n THEN <<sa[k]>> ELSE <<>>])
+    have => /\ ENABLED RanksOk([k \in 1..(n + 1) |-> IF k <= n THEN sa[k] ELSE 0 - 1], n)
+            /\ ~ENABLED RanksOk([k \in 1..(n + 1) |-> IF k <= n THEN sa[k] ELSE 0 - 1], n + 1)
+            /\ ~ENABLED RanksOk([k \in 1..(n + 1) |-> IF k <= n THEN sa[k] ELSE 0], n)
             /\ ENABLED Lcp(DefLcp(sa))
+            /\ ENABLED LcpAt(Append(DefLcp(sa), 0 - 1))
+            /\ ~ENABLED LcpAt(Append(DefLcp(sa), 0))
             /\ ENABLED Bwt(DefBwt(sa))
-            /\ ENABLED TextLen(n)
-            /\ n > 0 => ~ENABLED TextLen(n - 1)
 =============================================================================
